@@ -278,7 +278,7 @@ def run_check(pid, tier, seed, t0):
         print(f"VIOLATION property={pid} replay={path}")
         print("  ", json.dumps(r)[:500])
         print("  ", json.dumps(rec)[:700])
-    if rc == 0 and viol:
+    if viol:
         rc = 1
     ms = st["model_runs"]
     cov = {
